@@ -652,9 +652,11 @@ def r2_mksetpv(ctx):
             continue                # minor mask inside major mask: no DOF can be in minor only, the regime is empty
         # tests on the two masks themselves (bit operations and their truth): decided over every pair of 4-bit masks.  Some DOF can be in minor
         # and not in major exactly when the minor mask has a bit outside the major mask; the regime is non-empty iff such a pair passes the tests
-        fs = [_mask_fn(c, rn[2], rj[2]) for c, dd, _ in extra]
-        if extra and all(f is not None for f in fs):
-            wit = next(((m, j) for m in range(16) for j in range(16)
+        consts = set()
+        fs = [_mask_fn(c, rn[2], rj[2], consts) for c, dd, _ in extra]
+        world = _mask_world(consts) if extra and all(f is not None for f in fs) else None
+        if world is not None:
+            wit = next(((m, j) for m in world for j in world
                         if m & ~j and all(bool(f(m, j)) == dd for f, (c, dd, _) in zip(fs, extra))), None)
             if wit is None:
                 continue
@@ -682,12 +684,14 @@ def r2_mksetpv(ctx):
               None if ok else {"returned": _show(bad[0].ret), "regime": bad[0].describe()})
 
 
-def _mask_fn(c, M, J):
+def _mask_fn(c, M, J, consts=None):
     """the value c as a Python function of two concrete integer masks (M -> m, J -> j), or None when c is built from anything but the two masks,
-    integer constants, & | ^ ~, comparisons and not / bool"""
+    integer constants, & | ^ ~ << >>, + - *, comparisons, not / bool / int, .bit_count() / .bit_length();  the integer constants met are
+    added to `consts`"""
     import operator
     CMP = {"Eq": operator.eq, "NotEq": operator.ne, "Gt": operator.gt, "GtE": operator.ge, "Lt": operator.lt, "LtE": operator.le}
     BIT = {"mask:BitAnd": operator.and_, "mask:BitOr": operator.or_, "mask:BitXor": operator.xor}
+    SHIFT = {"op:LShift": lambda x, n: x << n if 0 <= n < 64 else 0, "op:RShift": lambda x, n: x >> n if 0 <= n < 64 else 0}
 
     def build(x):
         if same(x, M):
@@ -696,14 +700,41 @@ def _mask_fn(c, M, J):
             return lambda m, j: j
         k = const_of(x)
         if k is not None:
-            try:
-                k = int(k) if int(k) == k else None
-            except (TypeError, ValueError):
-                k = None
-            return None if k is None else (lambda m, j, k=k: k)
+            if k.denominator != 1:
+                return None
+            if consts is not None:
+                consts.add(int(k))
+            return lambda m, j, k=int(k): k
+        if sym_of(x) in ("True", "False"):
+            return lambda m, j, k=(sym_of(x) == "True"): k
         u = unfn_m(x)
         if u is None:
-            return None
+            # a sum / product of such values
+            try:
+                if not x.d.is_const() or sym_of(x) is not None:
+                    return None
+                den = x.d.const_value()
+                terms = []
+                for mono, coef in x.n.t.items():
+                    fs = []
+                    for aid, e in mono:
+                        f = build(F.Rat(F.Poly.atom(aid)))
+                        if f is None or e < 1:
+                            return None
+                        fs.append((f, e))
+                    terms.append((coef / den, fs))
+            except Exception:  # noqa
+                return None
+
+            def poly(m, j):
+                tot = 0
+                for coef, fs in terms:
+                    t = coef
+                    for f, e in fs:
+                        t = t * int(f(m, j)) ** e
+                    tot += t
+                return int(tot) if tot == int(tot) else tot
+            return poly
         nm, args = u
         if any(isinstance(a, str) for a in args):
             return None
@@ -712,16 +743,46 @@ def _mask_fn(c, M, J):
             return None
         if nm in BIT and len(fs) == 2:
             return lambda m, j, op=BIT[nm]: op(int(fs[0](m, j)), int(fs[1](m, j)))
+        if nm in SHIFT and len(fs) == 2:
+            return lambda m, j, op=SHIFT[nm]: op(int(fs[0](m, j)), int(fs[1](m, j)))
         if nm == "invert" and len(fs) == 1:
             return lambda m, j: (not fs[0](m, j)) if isinstance(fs[0](m, j), bool) else ~fs[0](m, j)
         if nm in ("not",) and len(fs) == 1:
             return lambda m, j: not fs[0](m, j)
-        if nm in ("call:bool", "call:int") and len(fs) == 1:
+        if nm in ("call:bool", "call:int", "call:operator.index") and len(fs) == 1:
             return fs[0]
+        if nm in ("call:.bit_count", "call:int.bit_count") and len(fs) == 1:
+            return lambda m, j: bin(int(fs[0](m, j)) & 0xFFFFFFFFFFFF).count("1")
+        if nm in ("call:.bit_length", "call:int.bit_length") and len(fs) == 1:
+            return lambda m, j: int(fs[0](m, j)).bit_length()
         if nm.startswith("cmp:") and nm[4:] in CMP and len(fs) == 2:
             return lambda m, j, op=CMP[nm[4:]]: op(fs[0](m, j), fs[1](m, j))
+        if nm in ("bool:And", "bool:Or") and fs:
+            return (lambda m, j: all(f(m, j) for f in fs)) if nm == "bool:And" else (lambda m, j: any(f(m, j) for f in fs))
         return None
     return build(c)
+
+
+def _mask_world(consts, width=32):
+    """integer masks over a few bit positions that tell apart everything a bit-level test with the constants `consts` can tell apart: two
+    positions out of every class of positions with the same membership in all the constants (at least four positions, at most eight);
+    None when the constants split the word into too many classes"""
+    classes = {}
+    for b in range(width):
+        classes.setdefault(tuple((k >> b) & 1 for k in sorted(consts)), []).append(b)
+    per = 2 if 2 * len(classes) <= 8 else 1
+    if per * len(classes) > 8:
+        return None
+    pos = []
+    for sig, bs in sorted(classes.items()):
+        pos += bs[:per]
+    rest = [b for b in range(width) if b not in pos]
+    while len(pos) < 4 and rest:
+        pos.append(rest.pop(0))
+    masks = []
+    for sel in range(1 << len(pos)):
+        masks.append(sum(1 << b for i, b in enumerate(pos) if (sel >> i) & 1))
+    return masks
 
 
 _PLAIN_CALLS = {"mkusetmask", "int", "bool", "len", "abs", "str", "float", "isinstance", "min", "max", "sum", "any", "all", "list", "tuple", "range"}
@@ -1611,6 +1672,51 @@ def _iteration_source(it):
     return "source", x
 
 
+def _cmp_const(c, d, is_target):
+    """a path test (canonical value c, truth d) as a predicate on the integer quantity recognised by is_target:  `lambda n: bool`;  None when
+    the test does not mention the quantity;  "odd" when it mentions it in a form this reader does not know.  Known: the quantity compared with
+    an integer constant (==, !=, <, <=, >, >= - canonical forms cmp:Eq / cmp:Gt), the bare quantity as a truth value"""
+    if c is None:
+        return None
+    if is_target(c):
+        return (lambda n: n != 0) if d else (lambda n: n == 0)
+    for op in ("cmp:Eq", "cmp:Gt"):
+        a = app(c, op)
+        if a and len(a) == 2:
+            for x, k, swapped in ((a[0], a[1], False), (a[1], a[0], True)):
+                kk = const_of(k)
+                if is_target(x) and kk is not None:
+                    if op == "cmp:Eq":
+                        return (lambda n, kk=kk: n == kk) if d else (lambda n, kk=kk: n != kk)
+                    if not swapped:         # quantity > k
+                        return (lambda n, kk=kk: n > kk) if d else (lambda n, kk=kk: n <= kk)
+                    return (lambda n, kk=kk: kk > n) if d else (lambda n, kk=kk: kk <= n)
+    if find(c, is_target):
+        return "odd"
+    return None
+
+
+def _emptiness(p, of):
+    """what the tests of path p establish about the number of items of the array recognised by `of` (a predicate on values):
+    "empty" - every size the tests admit is 0;  "non-empty" - some admitted size is > 0;  "untested" - no test looks at the size;
+    "odd" - a test looks at it in a form this reader does not know.  Sizes are tried over 0..4"""
+    def is_size(v):
+        u = unfn_m(v)
+        if u is None:
+            return False
+        if u[0] in ("attr:size", "call:len", "call:np.size") and len(u[1]) == 1:
+            return of(u[1][0])
+        return u[0] == "idx" and const_of(u[1][1]) == 0 and bool(app(u[1][0], "attr:shape")) and of(app(u[1][0], "attr:shape")[0])
+    preds = [_cmp_const(c, d, is_size) for c, d, _ in p.atoms()]
+    if "odd" in preds:
+        return "odd"
+    preds = [f for f in preds if f is not None]
+    if not preds:
+        return "untested"
+    sizes = [n for n in range(5) if all(f(n) for f in preds)]
+    return "empty" if sizes == [0] else ("non-empty" if any(n > 0 for n in sizes) else "empty")
+
+
 def r4_expanddof(ctx):
     fn = raw_func(ctx, N2P, "expanddof")
     dofp = fn.args.args[0].arg
@@ -1730,6 +1836,64 @@ def r4_expanddof(ctx):
     filled = [t for t in kinds if t[1] == "filled"]
     ctx.check(not filled, "expanddof: no regime returns a constant-filled array (an empty request gives an array without rows)",
               (filled[0][0].ret_node if filled else None) or fn, None if not filled else {"regime": filled[0][0].describe(), "returned": _show(filled[0][2])})
+    # ... and only an empty request gives no rows: the regime that returns an array without rows is entered on a test that admits only size 0
+    is_req = lambda x: sym_of(strip(x)) == dofp
+    bad, odd = None, None
+    for p, k, v in kinds:
+        if k != "empty":
+            continue
+        e = _emptiness(p, is_req)
+        if e == "odd":
+            odd = p
+        elif e != "empty":
+            bad = (p, e)
+    if bad is None and odd is not None:
+        ctx.error("expanddof: a test on the size of the request is not recognised (rule knows size / len / shape[0] compared with a constant)", odd.ret_node,
+                  {"regime": odd.describe()})
+    else:
+        ctx.check(bad is None, "expanddof: an array without rows is returned only when the tests taken establish that the request is empty", (bad[0].ret_node if bad else None) or fn,
+                  None if bad is None else {"regime": bad[0].describe(), "size of the request on this path": bad[1],
+                                            "consequence": "a request with entries is answered with no DOF at all"})
+    # the id expansion treats every entry of the request as an id: right only for a request without a component column (0-d, 1-D, or one column).
+    # Decided over the finite world (ndim, number of columns) in {0, 1} u {2} x {1, 2, 3}: a world is on the path when every test on ndim /
+    # shape[1] the path took has the truth it took there (a test on shape[1] cannot be taken for ndim < 2: it raises)
+    def is_ndim(x):
+        u = unfn_m(x)
+        if u is None:
+            return False
+        if u[0] in ("attr:ndim", "call:np.ndim") and len(u[1]) == 1:
+            return is_req(u[1][0])
+        return u[0] == "call:len" and len(u[1]) == 1 and bool(app(u[1][0], "attr:shape")) and is_req(app(u[1][0], "attr:shape")[0])
+
+    def is_ncols(x):
+        i = app(x, "idx")
+        return bool(i) and const_of(i[1]) in (1, -1) and bool(app(i[0], "attr:shape")) and is_req(app(i[0], "attr:shape")[0])
+
+    bad, odd = None, None
+    for p, k, v in ids:
+        X, _ = _cross_rows(v)
+        if sym_of(strip(X)) != dofp:
+            continue
+        tests = []
+        for c, d, node in p.atoms():
+            fn_, fc = _cmp_const(c, d, is_ndim), _cmp_const(c, d, is_ncols)
+            if fn_ == "odd" or fc == "odd" or (fn_ is None and fc is None and c is not None and find(c, lambda y: bool(app(y, "attr:shape")) and is_req(app(y, "attr:shape")[0]))):
+                odd = (p, node)
+            tests.append((fn_ if callable(fn_) else None, fc if callable(fc) else None))
+        worlds = [(nd, nc) for nd in (0, 1) for nc in (None,)] + [(2, nc) for nc in (1, 2, 3)]
+        on_path = [(nd, nc) for nd, nc in worlds
+                   if all((f is None or f(nd)) and (g is None or (nc is not None and g(nc))) for f, g in tests)]
+        wrong = [w for w in on_path if w[0] == 2 and w[1] > 1]
+        if wrong:
+            bad = (p, wrong[0])
+    if bad is None and odd is not None:
+        ctx.error("expanddof: a test on the shape of the request is not recognised (rule knows ndim and shape[1] compared with constants)", odd[1],
+                  {"regime": odd[0].describe()})
+    else:
+        ctx.check(bad is None, "expanddof: every entry of the request is expanded as an id only when the tests taken establish that the request has no "
+                               "component column (ndim < 2 or one column)", (bad[0].ret_node if bad else None) or fn,
+                  None if bad is None else {"regime": bad[0].describe(), "admitted (ndim, columns)": list(bad[1]),
+                                            "consequence": "[[id, 123456]] is expanded as the two ids `id` and 123456"})
 
 
 def r5_index2slice(ctx):
@@ -1739,7 +1903,7 @@ def r5_index2slice(ctx):
     pv = F.sym(fn.args.args[0].arg)
     first, last = F.fn("idx", pv, F.const(0)), F.fn("idx", pv, F.const(-1))
     steps = [F.fn("idx", F.fn("call:np.diff", pv), F.const(0)), F.fn("idx", pv, F.const(1)) - first]
-    runs, singles = [], []
+    runs, singles, empties = [], [], []
     for p in paths:
         c = split_call(p.ret) if p.returned and not isinstance(p.ret, tuple) else None
         if c and c[0] == "slice" and not c[2] and 1 <= len(c[1]) <= 3:
@@ -1750,6 +1914,8 @@ def r5_index2slice(ctx):
             elif sym_of(a) != "None" and const_of(a) is None:
                 singles.append((p, [a, b]))
             # a slice without start and step (slice(0), slice(None, 0)) is the answer for an empty vector: not a run, not a single entry
+            elif const_of(b) == 0 and (sym_of(a) == "None" or const_of(a) == 0):
+                empties.append(p)
     if not runs or not singles:
         raise AnchorError("index2slice: slice(start, stop, step) / slice(start, stop) returns")
 
@@ -1834,6 +2000,21 @@ def r5_index2slice(ctx):
             bad = p
     ctx.check(bad is None, "index2slice: a single entry i gives slice(i, i + 1), with stop None exactly when i == -1", (bad.ret_node if bad else None) or fn,
               None if bad is None else {"regime": bad.describe(), "returned": _show(bad.ret)})
+    # the slice that selects nothing: only for a vector without entries
+    bad, odd = None, None
+    for p in empties:
+        e = _emptiness(p, lambda x: sym_of(strip(x)) == fn.args.args[0].arg)
+        if e == "odd":
+            odd = p
+        elif e != "empty":
+            bad = (p, e)
+    if bad is None and odd is not None:
+        ctx.error("index2slice: a test on the number of entries is not recognised (rule knows size / len / shape[0] compared with a constant)", odd.ret_node,
+                  odd.describe())
+    elif empties:
+        ctx.check(bad is None, "index2slice: the slice that selects nothing (slice(0)) is returned only when the tests taken establish that pv has no entry",
+                  (bad[0].ret_node if bad else None) or fn,
+                  None if bad is None else {"regime": bad[0].describe(), "number of entries on this path": bad[1], "returned": _show(bad[0].ret)})
 
 
 RULES = [
